@@ -513,7 +513,10 @@ def rule_loop(ctx):
         except AnalysisError as e:
             raise AnalysisError(f"[C14.3-reconnect-loop] handle_connect_error outside the modelled subset: {e}")
     # start-up: `start` event then the loop
-    sf = [c for c in calls_in(start.node) if call_name(c) == "txaio.add_callbacks" and norm.text(c.args[0]) == "start_f"]
+    # the 'start' event's result: the local holding what self.fire("start", ...) returned (whatever it is called)
+    sfn = {s_.targets[0].id for s_ in walk_no_defs(start.node) if isinstance(s_, ast.Assign) and len(s_.targets) == 1 and isinstance(s_.targets[0], ast.Name) and
+           isinstance(s_.value, ast.Call) and norm.text(s_.value.func) == "self.fire" and s_.value.args and isinstance(s_.value.args[0], ast.Constant) and s_.value.args[0].value == "start"} or {"start_f"}
+    sf = [c for c in calls_in(start.node) if call_name(c) == "txaio.add_callbacks" and norm.text(c.args[0]) in sfn]
     ctx.ob("start(): the loop is entered after the 'start' listeners", len(sf) == 1 and [norm.text(a) for a in sf[0].args[1:]] == ["transport_check", "error"],
            "start continuation changed", start.loc())
     rt = sorted([s for s in walk_no_defs(start.node) if isinstance(s, ast.Return)], key=lambda s: s.lineno)
